@@ -124,3 +124,86 @@ func TestVerifSearch_applyCursorsToAllEdges(t *testing.T) {
 	fmt.Printf("VERIF-SAMPLE: cursors=[a b c] after=a before=c\n")
 	fmt.Printf("VERIF-BOUNDED: evaluations=%d distinct=%d failures=%d\n", evals, distinct, failures)
 }
+
+// Property-level oracle for one page (C11): window by cursors, then cut by first / last;
+// hasNextPage <=> cut short by first || elements beyond `before`; hasPrevPage <=> cut short by last || elements before `after`.
+func verifC11Page(cursors []string, before, after *string, first, last *int64) (page []string, next, prev bool) {
+	lo, hi, elemsAfter, elemsBefore := verifC11Window(cursors, before, after)
+	w := cursors[lo:hi]
+	next = before != nil && elemsAfter
+	prev = after != nil && elemsBefore
+	if first != nil && int64(len(w)) > *first {
+		w = w[:*first]
+		next = true
+	}
+	if last != nil && int64(len(w)) > *last {
+		w = w[int64(len(w))-*last:]
+		prev = true
+	}
+	return w, next, prev
+}
+
+func TestVerifSearch_paginateManually(t *testing.T) {
+	all := []string{"a", "b", "c", "d"}
+	evals, distinct, failures := 0, 0, 0
+	i64 := func(v int64) *int64 { return &v }
+	for n := 0; n <= 4; n++ {
+		cursors := all[:n]
+		choices := []*string{nil}
+		for i := range cursors {
+			choices = append(choices, &cursors[i])
+		}
+		absent := "zz"
+		choices = append(choices, &absent)
+		limits := [][2]*int64{{nil, nil}}
+		for _, v := range []int64{0, 1, 2, 3, 5} {
+			limits = append(limits, [2]*int64{i64(v), nil}, [2]*int64{nil, i64(v)})
+		}
+		for _, after := range choices {
+			for _, before := range choices {
+				for _, fl := range limits {
+					evals++
+					if n > 1 {
+						distinct++
+					}
+					edges := make([]Edge, len(cursors))
+					for i, c := range cursors {
+						edges[i] = Edge{Node: i, Cursor: c}
+					}
+					c := &Connection{Edges: edges}
+					err := c.paginateManually(PaginationArgs{First: fl[0], Last: fl[1], After: after, Before: before})
+					want, wantNext, wantPrev := verifC11Page(cursors, before, after, fl[0], fl[1])
+					bad := ""
+					if err != nil {
+						bad = "unexpected error: " + err.Error()
+					} else if len(c.Edges) != len(want) {
+						bad = fmt.Sprintf("page has %d edges, want %v", len(c.Edges), want)
+					} else {
+						for k := range want {
+							if c.Edges[k].Cursor != want[k] {
+								bad = fmt.Sprintf("page[%d]=%s, want %v", k, c.Edges[k].Cursor, want)
+							}
+						}
+						if bad == "" && (c.PageInfo.HasNextPage != wantNext || c.PageInfo.HasPrevPage != wantPrev) {
+							bad = fmt.Sprintf("hasNextPage=%v hasPrevPage=%v, property demands %v %v", c.PageInfo.HasNextPage, c.PageInfo.HasPrevPage, wantNext, wantPrev)
+						}
+					}
+					if bad != "" {
+						failures++
+						if failures == 1 {
+							show := func(p *int64) interface{} {
+								if p == nil {
+									return nil
+								}
+								return *p
+							}
+							fmt.Printf("VERIF-FAIL-INPUT: %s\n", verifJSON(map[string]interface{}{"input": verifShow(cursors, before, after), "first": show(fl[0]), "last": show(fl[1]), "detail": bad}))
+						}
+					}
+				}
+			}
+		}
+	}
+	fmt.Printf("VERIF-SAMPLE: cursors=[a b c d] after=a before=d first=2\n")
+	fmt.Printf("VERIF-BOUNDED: evaluations=%d distinct=%d failures=%d\n", evals, distinct, failures)
+}
